@@ -78,8 +78,11 @@ impl Source for VecSource {
         if self.fail_at == Some(k) {
             return Err(SourceError::by_reason(SourceErrorReason::IO(None)));
         }
-        let want = block_size * self.ch;
-        let end = (self.pos + want).min(self.data.len());
+        if self.ch == 0 {
+            return Ok(0);
+        }
+        let want = block_size.saturating_mul(self.ch);
+        let end = self.pos.saturating_add(want).min(self.data.len());
         let chunk = &self.data[self.pos..end];
         if !chunk.is_empty() || self.fill_at_eof {
             match self.delivery {
@@ -151,6 +154,11 @@ pub fn err_kind(e: &EncodeError) -> (String, String) {
 
 /// Encodes through the stream-level entry point (`St`/`Mt`) or the frame-level one (`Fl`).
 pub fn encode(cfg: &Cfg, src: VecSource, mode: &Mode) -> Outcome {
+    encode_bs(cfg, src, mode, cfg.block_size)
+}
+
+/// Same, with the block-size *argument* given separately from the configuration's field.
+pub fn encode_bs(cfg: &Cfg, src: VecSource, mode: &Mode, bs: usize) -> Outcome {
     let mut cfg = cfg.clone();
     match mode {
         Mode::St | Mode::Fl => {
@@ -161,7 +169,6 @@ pub fn encode(cfg: &Cfg, src: VecSource, mode: &Mode) -> Outcome {
             cfg.workers = Some(*w);
         }
     }
-    let bs = cfg.block_size;
     let enc = cfg.to_encoder();
     let r = catch_unwind(AssertUnwindSafe(|| -> Result<Stream, EncodeError> {
         let verified = enc.into_verified().map_err(|(_, e)| EncodeError::Config(e))?;
